@@ -64,12 +64,15 @@ func (in *Interp) assert(label string, cond *term.Term) {
 	in.nobl++
 	ob := in.check(label, cond)
 	in.res.Obligations = append(in.res.Obligations, ob)
+	if ob.Tier == "fp-path-infeasible" {
+		panic(pathEnd{"infeasible", "path condition unsatisfiable in the precise theory"})
+	}
 	if ob.Status == "closed" || ob.Status == "discharged" {
 		return
 	}
 	// continue under the assumption that the assertion held, so that later
 	// obligations on this path are independent findings
-	if cond.IsConst() || !in.feasible(cond) {
+	if cond.IsConst() || !in.feasible(cond) || !in.feasiblePrecise(cond) {
 		panic(pathEnd{"assert-failed", label})
 	}
 	in.addPC(cond)
@@ -151,11 +154,19 @@ func registerHarnessIntrinsics() {
 		in.assert(a[0].(string), tt(a[1]))
 		return nil
 	})
+	traceEq := func(in *Interp, a []Value) {
+		x, y := tt(a[1]), tt(a[2])
+		if in.concrete && x.IsConst() && y.IsConst() {
+			in.trace = append(in.trace, fmt.Sprintf("%s:%x,%x", a[0].(string), math.Float64bits(x.F), math.Float64bits(y.F)))
+		}
+	}
 	reg("VerifAssertEqF", func(in *Interp, fn *ssa.Function, a []Value) Value {
+		traceEq(in, a)
 		in.assert(a[0].(string), term.FSame(tt(a[1]), tt(a[2])))
 		return nil
 	})
 	reg("VerifAssertEqF32", func(in *Interp, fn *ssa.Function, a []Value) Value {
+		traceEq(in, a)
 		in.assert(a[0].(string), term.FSame(tt(a[1]), tt(a[2])))
 		return nil
 	})
